@@ -220,7 +220,7 @@ def register_socket(R):
             "RuntimeError": [("infinite-wait-reported-nothing", f"isinf({T})", "C11")],
         },
         modifies=["ghost.WIRE", "ghost.now", "ghost.waited", "ghost.select_calls", "ghost.unbounded_waits", "ghost.last_wait", "ghost.cb_returned", "ghost.cb_failed"],
-        env={"retry_allowed": {"classes": ["WouldBlockOnWrite"], "tags": "C04",
+        env={"retry_allowed": {"classes": ["WouldBlockOnWrite"], "tags": "C04 C11",
                                "name": "a-would-block-of-the-plain-socket-write-waits-for-writability (never for readability: the peer may never write)"},
              "call_hints": {
             "_retry": [("sendmsg-wrote-a-prefix-of-the-pending-bytes",
